@@ -76,7 +76,7 @@ theorem doCall_inv {o : Opts} {b : Nat} {fs : Frames} {ns : List (List Bytes)} {
     exact this.1
   | val v =>
     simp only [doCall] at h
-    obtain ⟨toks, rest, fs', ns', ht, hout, htr, hI'⟩ := writeValue_inv hI hb v h
+    obtain ⟨toks, rest, fs', ns', ht, hout, htr, hI', _⟩ := writeValue_inv hI hb v h
     have hvt : valueToks o v = toks := by simp [valueToks, ht]
     exact ⟨fs', ns', by simp [opToks, hvt, htr], hI', by simp [opToks, hvt, hout]⟩
 
